@@ -13,6 +13,7 @@ import (
 // C11, C12.
 
 var (
+	pB0   = u.F("pB0", "", "B")                 // B without dependencies
 	pAg   = u.F("pAg", "", "{A;A+g}")           // one constructor, direct value and group member
 	pBe   = u.F("pBe", "A", "B,error")          // may fail by error
 	pAe   = u.F("pAe", "", "A,error")           // may fail by error
